@@ -274,11 +274,15 @@ def analyse_metric(repo: Repo, rep: Report, file: str, cname: str, fwd_atoms: Di
         return n
     ev = None
     for what, a, b in (("error count", E_f, E_u), ("total", T_f, T_u)):
-        if "?" not in a and "?" not in b and a != b and ev is None:
-            # the two derivations are spelt differently: decided by evaluating both methods on sample batches
+        if (a != b or "?" in a or "?" in b) and ev is None:
+            # the two derivations are spelt differently (or too long to compare as terms): decided by evaluating both methods on sample batches
             ev = streaming_evaluated(repo, ci, err_attr, tot_attr, STREAM_ATTRS.get(cname, {}))
-        if "?" in a or "?" in b:
-            rep.undecided("SIBLING", fwd, f"{what}: forward vs update", "term overflow")
+        if ("?" in a or "?" in b) and ev is not None and ev[0] is True:
+            rep.ok("SIBLING", fwd, f"{what}: forward vs update (terms too long to compare)", ev[1])
+        elif ("?" in a or "?" in b) and ev is not None and ev[0] is False:
+            rep.violation("SIBLING", upd, f"{what}: forward vs update", f"accumulating over update() calls does not equal the one-shot value on the concatenated data ({ev[1]})")
+        elif "?" in a or "?" in b:
+            rep.undecided("SIBLING", fwd, f"{what}: forward vs update", "term overflow" + (f"; evaluation: {ev[1]}" if ev is not None else ""))
         elif a == b:
             rep.ok("SIBLING", fwd, f"{what}: forward == update == {' | '.join(sorted(a))}", "the streamed per-batch quantity is the one-shot quantity")
         elif ev is not None and ev[0] is True:
